@@ -20,7 +20,17 @@ def _k(x):
     return x
 
 
+class RefUnknown(Exception):
+    """The reference cannot judge (fuel, unresolved hole): the case is outside the claim."""
+
+    def __init__(self, why):
+        Exception.__init__(self, why)
+        self.why = why
+
+
 class Refs:
+    follow_holes = False
+
     def __init__(self, ex, concretize=None):
         self.ex = ex
         self.memo = {}
@@ -34,7 +44,24 @@ class Refs:
             from .inputs import InputTerm
             if isinstance(t, InputTerm):
                 self.concretize(self.ex, t)
-        return T.views(self.ex, t)
+        vs = T.views(self.ex, t)
+        if self.follow_holes and any(ct == "Unifier" for _, ct, _ in vs):
+            out = []
+            for g, ct, adt in vs:
+                if ct != "Unifier":
+                    out.append((g, ct, adt))
+                    continue
+                cell, shift = adt.fields
+                content = self.ex.cell_get(cell)
+                if isinstance(content, Union) or isinstance(cell, Union):
+                    raise InternalError("merged hole cell in a reference")
+                if content.variant != "Some":
+                    raise RefUnknown("unresolved hole")
+                _, inner = self.shift(content.fields[0], 0, shift)
+                for g2, c2, a2 in self.views(inner):
+                    out.append((z_and(g, g2), c2, a2))
+            return out
+        return vs
 
     def _memo(self, key, t, extra=()):
         self.keep.append((t, extra))
